@@ -4,7 +4,7 @@
    specification: Spec/WsdlSpec.v (`expected`, hand-written from WSDL 1.1 / SOAP 1.1). *)
 From Coq Require Import NArith List Bool.
 From XV Require Import Base.Str Base.Eqb Spec.WsdlSpec Model.Wsdl Model.WsdlCorr Proofs.WsdlClient
-  Proofs.WsdlRefute Proofs.WsdlTheorem.
+  Proofs.WsdlRefute Proofs.WsdlTheorem Proofs.WsdlSucceeds.
 Import ListNotations.
 Open Scope N_scope.
 
@@ -74,10 +74,12 @@ Theorem C17_mapper_matches_expected : forall te d,
 Proof. exact mapper_matches_expected. Qed.
 Print Assumptions C17_mapper_matches_expected.
 
-Theorem C17_generation_succeeds_partial : forall te d,
-  wf_definitions d = true -> guard te d = true -> exists cs, map_definitions d = Some cs.
-Proof. exact generation_succeeds. Qed.
-Print Assumptions C17_generation_succeeds_partial.
+(* generation succeeds on EVERY document of the fragment, guard or not: the mapper raises
+   nothing (no "Unknown WSDL Type", no AttributeError on a missing message, no StopIteration) *)
+Theorem C17_generation_succeeds : forall d,
+  wf_definitions d = true -> exists cs, map_definitions d = Some cs.
+Proof. exact generation_succeeds_wf. Qed.
+Print Assumptions C17_generation_succeeds.
 
 (* non-vacuity: three operations over two bindings (rpc and document), a header, faults *)
 Example C17_guard_inhabited :
